@@ -14,6 +14,7 @@
 
 //! A disk cache engine that serves as the disk cache backend of `foyer`.
 
+#![cfg_attr(not(foyer_verif), allow(unexpected_cfgs))]
 #![cfg_attr(feature = "nightly", feature(allocator_api))]
 #![cfg_attr(feature = "nightly", feature(write_all_vectored))]
 
@@ -30,3 +31,15 @@ pub use prelude::*;
 
 #[cfg(any(test, feature = "test_utils"))]
 pub mod test_utils;
+
+/// Verification-only re-exports (compiled only with `--cfg foyer_verif`) so that a simulated device and io engine
+/// can be implemented outside the crate: the signatures of `Device`, `Partition` and `IoEngine` mention these types.
+#[cfg(foyer_verif)]
+pub mod verif {
+    pub use crate::io::{
+        PAGE,
+        bytes::{IoB, IoBuf, IoBufMut, IoSlice, IoSliceMut},
+        device::{Partition, PartitionId},
+        engine::IoEngineBuildContext,
+    };
+}
